@@ -269,7 +269,7 @@ static void stub_successor(const ldb_comparator_t *c, ldb_buffer_t *key) {
 #include "table/table_builder.c"
 
 /* ================================================================ tblb.raw */
-#define TB_INV(tb) ((tb)->file == &g_wfile && ((tb)->status == LDB_OK) == !W.failed && ((tb)->status != LDB_OK || (tb)->offset == W.accepted) && W.phase == 0)
+#define TB_INV(tb) ((tb)->file == &g_wfile && ((tb)->status == LDB_OK) == !W.failed && ((tb)->status != LDB_OK || ((tb)->offset == W.accepted && W.phase == 0)))
 #define NOWRAP(off, n) ((n) <= 0xffffffffffffffffull - 5 && (off) <= 0xffffffffffffffffull - 5 - (n))
 #define WLAST (W.blk[__CPROVER_old(W.n)])
 
@@ -328,7 +328,7 @@ __CPROVER_ensures(((tb->status == LDB_OK) == !W.failed) && (tb->status != LDB_OK
 #define FL_ATT(st0, n0) ((st0) == LDB_OK && (n0) != 0)     /* a data block write is attempted */
 
 void c_tblb_flush(ldb_tablegen_t *tb)
-__CPROVER_requires(__CPROVER_rw_ok(tb, sizeof(*tb)) && TB_INV(tb) && MS.fx_calls == 0)
+__CPROVER_requires(__CPROVER_rw_ok(tb, sizeof(*tb)) && TB_INV(tb) && MS.fx_calls == 0 && (tb->status == LDB_OK || tb->status == W.fail_rc))
 __CPROVER_requires(tb->filter_block == NULL || tb->filter_block == &g_filtergen)
 /* builder invariant: an index entry is pending only while the data block is empty */
 __CPROVER_requires(!tb->pending_index_entry || tb->data_block.buffer.size == 0)
@@ -347,7 +347,8 @@ __CPROVER_ensures(!FL_ATT(__CPROVER_old(tb->status), __CPROVER_old(tb->data_bloc
                    W.flushes == __CPROVER_old(W.flushes) && W.failed == __CPROVER_old(W.failed) &&
                    tb->pending_index_entry == __CPROVER_old(tb->pending_index_entry) && tb->pending_handle.offset == __CPROVER_old(tb->pending_handle.offset) &&
                    tb->pending_handle.size == __CPROVER_old(tb->pending_handle.size) && tb->data_block.buffer.size == __CPROVER_old(tb->data_block.buffer.size) &&
-                   tb->data_block.counter == __CPROVER_old(tb->data_block.counter) && FG.start_calls == __CPROVER_old(FG.start_calls)))
+                   tb->data_block.counter == __CPROVER_old(tb->data_block.counter) && FG.start_calls == __CPROVER_old(FG.start_calls) && W.cur_src == __CPROVER_old(W.cur_src) &&
+                   tb->data_block.finished == __CPROVER_old(tb->data_block.finished) && W.phase == __CPROVER_old(W.phase)))
 /* otherwise the data block goes out through write_block; its handle becomes the pending index entry */
 __CPROVER_ensures(FL_ATT(__CPROVER_old(tb->status), __CPROVER_old(tb->data_block.buffer.size)) ==>
                   (tb->data_block.buffer.size == 0 && tb->data_block.counter == 0 && !tb->data_block.finished && W.cur_src == NULL &&
@@ -357,13 +358,19 @@ __CPROVER_ensures(FL_ATT(__CPROVER_old(tb->status), __CPROVER_old(tb->data_block
                   (WLAST.src == (const void *)&tb->data_block && WLAST.off == tb->pending_handle.offset && WLAST.size == tb->pending_handle.size &&
                    tb->offset == __CPROVER_old(tb->offset) + tb->pending_handle.size + 5 &&
                    tb->pending_index_entry == 1 && W.flushes == __CPROVER_old(W.flushes) + 1 && tb->status == W.flush_rc))
+/* what was stored is the block builder's finished block, raw or compressed */
+__CPROVER_ensures(FL_ATT(__CPROVER_old(tb->status), __CPROVER_old(tb->data_block.buffer.size)) ==>
+                  (tb->pending_handle.size == __CPROVER_old(tb->data_block.buffer.size) + IN.fin_extra || tb->pending_handle.size == IN.enc_len))
+__CPROVER_ensures(tb->status != LDB_OK ==> tb->status == W.fail_rc)
 /* block not written: the error is latched, nothing pending, no flush */
 __CPROVER_ensures(FL_ATT(__CPROVER_old(tb->status), __CPROVER_old(tb->data_block.buffer.size)) && W.n != __CPROVER_old(W.n) + 1 ==>
                   (W.n == __CPROVER_old(W.n) && tb->status != LDB_OK && tb->status == W.fail_rc && tb->pending_index_entry == __CPROVER_old(tb->pending_index_entry) &&
                    W.flushes == __CPROVER_old(W.flushes) && tb->offset == __CPROVER_old(tb->offset)))
 /* the filter builder learns where the next data block starts */
 __CPROVER_ensures(FL_ATT(__CPROVER_old(tb->status), __CPROVER_old(tb->data_block.buffer.size)) ==>
-                  (FG.start_calls == __CPROVER_old(FG.start_calls) + (tb->filter_block != NULL ? 1 : 0) && (tb->filter_block == NULL || FG.start_off == tb->offset)))
+                  (FG.start_calls == __CPROVER_old(FG.start_calls) + (tb->filter_block != NULL ? 1 : 0) &&
+                   (tb->filter_block == NULL || (FG.start_off == tb->offset && FG.t_start > __CPROVER_old(MS.clock) && FG.t_start <= MS.clock))))
+__CPROVER_ensures(MS.clock >= __CPROVER_old(MS.clock))
 __CPROVER_ensures(((tb->status == LDB_OK) == !W.failed) && (tb->status != LDB_OK || tb->offset == W.accepted) && (tb->status != LDB_OK || W.phase == 0))
 ;
 
@@ -385,7 +392,7 @@ __CPROVER_ensures(((tb->status == LDB_OK) == !W.failed) && (tb->status != LDB_OK
 #define HAS_FILTER (tb->filter_block != NULL)
 
 void c_tblb_add(ldb_tablegen_t *tb, const ldb_slice_t *key, const ldb_slice_t *value)
-__CPROVER_requires(__CPROVER_rw_ok(tb, sizeof(*tb)) && __CPROVER_r_ok(key, sizeof(*key)) && __CPROVER_r_ok(value, sizeof(*value)) && TB_INV(tb) && MS.fx_calls == 0)
+__CPROVER_requires(__CPROVER_rw_ok(tb, sizeof(*tb)) && __CPROVER_r_ok(key, sizeof(*key)) && __CPROVER_r_ok(value, sizeof(*value)) && TB_INV(tb) && MS.fx_calls == 0 && (tb->status == LDB_OK || tb->status == W.fail_rc))
 __CPROVER_requires((tb->filter_block == NULL || tb->filter_block == &g_filtergen) && tb->options.comparator == &g_cmp)
 __CPROVER_requires((g_cmp.shortest_separator == NULL || g_cmp.shortest_separator == stub_separator) && (g_cmp.short_successor == NULL || g_cmp.short_successor == stub_successor))
 __CPROVER_requires(!tb->pending_index_entry || tb->data_block.buffer.size == 0)
@@ -455,7 +462,7 @@ __CPROVER_ensures(TB_INV(tb) && (!tb->pending_index_entry || tb->data_block.buff
 
 int c_tblb_finish(ldb_tablegen_t *tb)
 __CPROVER_requires(__CPROVER_rw_ok(tb, sizeof(*tb)) && TB_INV(tb) && MS.fx_calls == 0 && MS.foot_appends == 0 && MS.init_calls == 0 && MS.clear_calls == 0 && MS.bn_calls == 0 && FG.fin_calls == 0)
-__CPROVER_requires(!tb->closed)
+__CPROVER_requires(!tb->closed && W.n + 4 <= WMAX && (tb->status == LDB_OK || tb->status == W.fail_rc))
 __CPROVER_requires(((tb->filter_block == NULL && tb->options.filter_policy == NULL) || (tb->filter_block == &g_filtergen && tb->options.filter_policy == &g_policy)) && tb->options.comparator == &g_cmp)
 __CPROVER_requires((g_cmp.shortest_separator == NULL || g_cmp.shortest_separator == stub_separator) && (g_cmp.short_successor == NULL || g_cmp.short_successor == stub_successor))
 __CPROVER_requires(!tb->pending_index_entry || tb->data_block.buffer.size == 0)
